@@ -418,6 +418,17 @@ func (ts *TermStore) Bin(op TOp, a, b *Term) *Term {
 			return ts.Const(r, w)
 		}
 	}
+	if a.IsConst() && b.IsConst() && w > 64 {
+		x, y := ts.bigOf(a), ts.bigOf(b)
+		switch op {
+		case TAdd:
+			return ts.BigConst(new(big.Int).Add(x, y), w)
+		case TSub:
+			return ts.BigConst(fromSigned(new(big.Int).Sub(x, y), w), w)
+		case TMul:
+			return ts.BigConst(new(big.Int).Mul(x, y), w)
+		}
+	}
 	if w <= 64 {
 		// identities
 		switch op {
@@ -683,6 +694,11 @@ func (ts *TermStore) Extract(a *Term, hi, lo int) *Term {
 		}
 	case TBAnd, TBOr, TBXor:
 		return ts.Bin(a.op, ts.Extract(a.args[0], hi, lo), ts.Extract(a.args[1], hi, lo))
+	case TAdd, TSub, TMul:
+		// the low bits of a sum/difference/product depend only on the low bits of the operands
+		if lo == 0 {
+			return ts.Bin(a.op, ts.Extract(a.args[0], hi, 0), ts.Extract(a.args[1], hi, 0))
+		}
 	}
 	return ts.intern(&Term{op: TExtract, w: w, args: []*Term{a}, p1: hi, p2: lo})
 }
